@@ -97,6 +97,9 @@ def main():
     build_s = time.time() - t0
 
     # ---- correspondence + oracle
+    # wall-clock budget for the exploration (a tree on which every case runs into a watchdog must not take hours): when it is
+    # used up the remaining cases are skipped and the evidence says so; the verdict rests on what was explored
+    H.BUDGET_END[0] = time.time() + float(os.environ.get("VERIF_BUDGET_S", "1500" if tier == "quick" else "21600"))
     outcome = H.Outcome()
     rng = random.Random(seed)
     try:
